@@ -139,8 +139,22 @@ void   vc_consume(vcur *c);                  /* current container extracted by g
 int    vc_depth(const vcur *c);              /* expected binson_parser_get_depth */
 uint64_t vc_hash(const vcur *c, uint64_t h);
 
+/* visits everything below an entered root with next/go_into/leave and compares each event; returns NULL or a description */
+const char *vc_visit_all(binson_parser *p, vnode *root, const uint8_t *buf, bool thorough, vrng *r, uint64_t *events);
 /* compares what the getters say with node n; returns NULL or a description (static buffer) */
 const char *vc_check_getters(binson_parser *p, const vnode *n, bool in_object, const uint8_t *buf, bool thorough, vrng *r);
+
+/* ------------------------------------------------- scripted call executor -- */
+/* A script is a list of (op, parameters) fixed in advance; executing it on a parser appends every
+ * observable result (return value, error_flags, get_depth, getter values, spans as offsets) to a transcript. */
+enum { S_RESET = 0, S_VERIFY, S_NEXT, S_NEXT_ENSURE, S_GO_OBJ, S_GO_ARR, S_LEAVE_OBJ, S_LEAVE_ARR, S_GET_TYPE, S_GET_NAME, S_GET_STRING, S_GET_BYTES,
+       S_GET_RAW, S_GET_INT, S_GET_BOOL, S_GET_DOUBLE, S_STR_EQ, S_DEPTH, S_TO_STRING, S_FIELD, S_FIELD_LEN, S_FIELD_ENSURE, S_FIELD_ENSURE_LEN, S_TO_WRITER, S_NOPS };
+typedef struct { uint8_t op; uint8_t type; uint16_t cap; uint8_t name[12]; uint8_t nlen; } vsop;
+typedef struct { int stack[64]; int sp; } vsctx;
+extern const char *vs_opname[];
+void vs_random(vrng *r, vsop *ops, int n, const uint8_t *doc, size_t doclen, bool sensible_root);
+void vs_exec(binson_parser *p, const uint8_t *buf, size_t n, vsctx *cx, const vsop *op, vbuf *transcript);
+void vs_describe(const vsop *ops, int n, vbuf *out);
 
 /* ---------------------------------------------------------- recogniser -- */
 enum { RE_OK = 0, RE_RANGE, RE_FORMAT, RE_DEPTH_OBJ, RE_DEPTH_ARR };
@@ -193,6 +207,7 @@ void vw_violation(const char *sig, const char *fmt, ...) __attribute__((format(p
 bool vw_stop(void);                               /* too many violations: stop exploring */
 int  vw_finish(void);
 uint64_t vw_cases_done(void);
+void vw_add_evals(uint64_t n);                    /* executions that were not announced one by one through vw_case */
 
 const char *vkind_name(int k);
 const char *vbtype_name(int t);
